@@ -10,8 +10,17 @@ Ties:  `leb`          leb128.h in-process (exhaustive ≤ 2 bytes, all continuat
        `reader-dump`  the real reader.c linked into a dump harness vs `readerdriver read` on wasmgen modules
                       re-encoded with padded LEBs / customs at every boundary / data flags / empty sections,
                       mutated + truncated streams, and /repo/tests/gen
-Property on the real code: all encodings of one module give the same decoded module (dump modulo offsets) and
-the same multiset of emitted C definitions (real w2c2 run on every encoding).
+       `imm`          the real immediate readers of instruction.c / instruction.h / valuetype.h and the real
+                      wasmLocalsDeclarationsGetType of locals.h (in-process harness imm_harness.c) vs Model.Instr through
+                      `readerdriver imm|blocktype|locals` on padded / truncated immediates and on locals vectors with
+                      zero-count groups everywhere
+Property on the real code: all encodings of one module give the same decoded module (dump modulo offsets and modulo the
+grouping of locals) and the same multiset of emitted C definitions (real w2c2 run on every encoding), and the compiled
+output of re-encoded modules behaves like the module in V8.  Re-encodings reach every LEB field inside function bodies
+(memarg align/offset, local/global/func/type/label/data indices, br_table vectors, call_indirect type AND table index,
+prefixed sub-opcodes, i32/i64.const) and the locals vector (counts padded; groups split / merged; zero-count groups at
+the beginning, in the middle, at the end); every variant is checked to be accepted by V8.  (Block types and the
+reserved memory-index bytes of memory.size/grow/fill/copy/init and atomic.fence are single bytes for V8: no variant.)
 """
 import collections
 import glob
@@ -24,12 +33,13 @@ import subprocess
 import vlib
 import leb_harness as lh
 import reader_dump as rd
+import imm_harness as ih
 from common import prove, leanchecker
 from vlib import log
 
 PROP = "C08"
-MODULES = ["W2c2Verif.Props.C08", "W2c2Verif.Props.C08Sections"]
-GENS = [("Reader", "gen_reader")]
+MODULES = ["W2c2Verif.Props.C08", "W2c2Verif.Props.C08Sections", "W2c2Verif.Props.C08Instr"]
+GENS = [("Reader", "gen_reader"), ("Instr", "gen_instr")]
 READERDRIVER = os.path.join(vlib.LEAN, ".lake", "build", "bin", "readerdriver")
 
 
@@ -137,6 +147,30 @@ def run_leb(chk, d, repo, broken):
     return len(cases)
 
 
+# ----------------------------------------------------------------------------------------------- immediates, locals
+
+def run_imm(chk, d, repo, broken):
+    """The real immediate readers / locals lookup (ASan+UBSan build) vs Model.Instr."""
+    cs = ih.cases(chk.rng, chk.tier)
+    lines = [ln for _, ln in cs]
+    exe = ih.build(repo, d)
+    real = ih.run(exe, lines)
+    model = vlib.DriverProc(READERDRIVER).batch(lines, timeout=1800)
+    hist = collections.Counter()
+    nmis = 0
+    for i, (kind, ln) in enumerate(cs):
+        hist[kind + "/" + real[i].split()[0]] += 1
+        chk.count_case(("imm", ln), True, {"line": ln, "real": real[i], "model": model[i]} if i % 1501 == 0 else None)
+        if real[i] != model[i]:
+            nmis += 1
+            if nmis <= 5:
+                broken.append({"kind": "correspondence", "msg": f"imm: `{ln}` real `{real[i]}` model `{model[i]}`"})
+    chk.coverage["imm_cases"] = len(cs)
+    chk.coverage["imm_histogram"] = dict(sorted(hist.items()))
+    chk.coverage["imm_mismatches"] = nmis
+    return len(cs)
+
+
 # ----------------------------------------------------------------------------------------------- module cases
 
 CUSTOM_NAMES = [b"name", b".debug_x", b"", b"producers", b".debug_", b".debug", b"nam\x00e", b"\xc3\xa9\xff"]
@@ -153,6 +187,12 @@ def encodings_of(rng, seed, profile, index, nrand):
     out.append(("min-empty", encode(m, Policy("minimal", emit_empty=True))))
     out.append(("min-flag2", encode(m, Policy("minimal", data_flag=2))))
     out.append(("min-flag0", encode(m, Policy("minimal", data_flag=0))))
+    # function bodies: the locals vector regrouped, the call_indirect table index in 2 and 5 bytes
+    for mode in LOCALS_VARIANTS:
+        out.append((f"min-locals-{mode}", encode(m, Policy("minimal", locals=mode))))
+    out.append(("max-locals-zero_all", encode(m, Policy("max", locals="zero_all"))))
+    out.append(("min-tblidx-two", encode(m, Policy("minimal", table_index_width=2))))
+    out.append(("min-tblidx-five", encode(m, Policy("minimal", table_index_width=5))))
     for slot in range(13):
         mm = module_for(seed, profile, index)
         nm = CUSTOM_NAMES[(slot + index) % len(CUSTOM_NAMES)]
@@ -163,11 +203,102 @@ def encodings_of(rng, seed, profile, index, nrand):
         mm = module_for(seed, profile, index)
         add_random_customs(rng, mm)
         out.append((f"rnd{j}", encode(mm, Policy("random", rng, emit_empty=rng.random() < 0.5,
-                                                   data_flag=rng.choice(("keep", 0, 2, "random")), pad_subop=True))))
+                                                   data_flag=rng.choice(("keep", 0, 2, "random")), pad_subop=True,
+                                                   locals=rng.choice(("keep", "random", "random"))))))
     return m, out
 
 
+LOCALS_VARIANTS = ("zero_lead", "zero_mid", "zero_end", "zero_all", "split", "merge")
+N_FIXED = 5 + len(LOCALS_VARIANTS) + 3        # encodings before the custom@ ones
+
+
+def directed_immediates():
+    """A hand-written module in which every kind of immediate occurs and matters for the result: locals of four types
+    in several groups (get/set/tee), br_table, call / call_indirect, globals, loads/stores with offsets, memory.size /
+    grow / fill / copy / init, data.drop, constants that need many LEB bytes."""
+    import wasmgen.wasm_ast as A
+    I = A.Instr
+    m = A.Module()
+    m.types = [A.FuncType((A.I32,), (A.I32,)), A.FuncType((A.I32, A.I64), (A.I64,))]
+    m.tables = [A.TableType(A.Limits(4, 4))]
+    m.mems = [A.Limits(1, 4)]
+    m.globals = [A.Global(A.GlobalType(A.I32, True), I("i32.const", 1000)), A.Global(A.GlobalType(A.I64, False), I("i64.const", -(1 << 40)))]
+    # f0: locals (i64 x2)(i32 x1)(f64 x1)(i32 x2); p*3+1 via several locals of different types
+    f0 = A.Function(0, [(2, A.I64), (1, A.I32), (1, A.F64), (2, A.I32)], [
+        I("local.get", 0), I("i64.extend_i32_u"), I("local.set", 1),
+        I("local.get", 1), I("i64.const", 1 << 32), I("i64.add"), I("local.tee", 2), I("i32.wrap_i64"), I("local.set", 3),
+        I("local.get", 0), I("f64.convert_i32_u"), I("local.set", 4),
+        I("local.get", 3), I("local.get", 0), I("i32.add"), I("local.tee", 5),
+        I("local.get", 4), I("i32.trunc_f64_u"), I("i32.add"), I("local.tee", 6), I("i32.const", 1), I("i32.add")])
+    # f1: br_table over three blocks
+    f1 = A.Function(0, [(1, A.I32)], [
+        I("block", None, body=[I("block", None, body=[I("block", None, body=[
+            I("local.get", 0), I("br_table", (0, 1, 2, 1, 0), 2)]),
+            I("i32.const", 11), I("return")]),
+            I("i32.const", -22), I("return")]),
+        I("local.get", 0), I("i32.const", 0x7FFFFFF), I("i32.xor")])
+    # f2: call_indirect through table 0, call
+    f2 = A.Function(0, [(1, A.I64), (1, A.I32)], [
+        I("local.get", 0), I("i32.const", 7), I("i32.add"),
+        I("local.get", 0), I("i32.const", 3), I("i32.and"), I("call_indirect", 0, 0),
+        I("local.set", 2), I("local.get", 2), I("call", 1), I("global.get", 0), I("i32.add")])
+    # f3: memory and globals
+    f3 = A.Function(0, [(1, A.I32), (1, A.I64)], [
+        I("i32.const", 16), I("local.get", 0), I("i32.store", 2, 200),
+        I("i32.const", 64), I("i32.const", 0xAB), I("i32.const", 300), I("memory.fill"),
+        I("i32.const", 1024), I("i32.const", 150), I("i32.const", 130), I("memory.copy"),
+        I("i32.const", 2048), I("i32.const", 1), I("i32.const", 3), I("memory.init", 0),
+        I("global.get", 0), I("local.get", 0), I("i32.add"), I("global.set", 0),
+        I("i32.const", 0), I("i64.load", 3, 1040), I("global.get", 1), I("i64.add"), I("local.tee", 2), I("i32.wrap_i64"),
+        I("i32.const", 0), I("i32.load8_u", 0, 2049), I("i32.add"),
+        I("i32.const", 1), I("memory.grow"), I("i32.add"), I("memory.size"), I("i32.add"),
+        I("i32.const", 0), I("i32.load16_u", 1, 216), I("i32.add"), I("global.get", 0), I("i32.add")])
+    # f4: data.drop (afterwards memory.init of a non-empty range traps: called last)
+    f4 = A.Function(0, [(0, A.F32)], [I("data.drop", 0), I("local.get", 0)])
+    m.funcs = [f0, f1, f2, f3, f4]
+    m.elems = [A.ElemSegment(0, I("i32.const", 0), [0, 1, 0, 1])]
+    m.datas = [A.DataSegment("passive", bytes(range(1, 9)))]
+    m.datacount = 1
+    m.exports = [A.Export(b"a", "func", 0), A.Export(b"b", "func", 1), A.Export(b"c", "func", 2), A.Export(b"d", "func", 3),
+                 A.Export(b"e", "func", 4)]
+    m.meta = {"imports_spec": {"globals": {}}, "exports": [],
+              "calls": [(n, [("i32", v)]) for v in (0, 1, 2, 3, 4, 5, 77, 0xFFFFFFFF) for n in (b"a", b"b", b"c", b"d")]
+              + [(b"e", [("i32", 9)])]}
+    return m
+
+
+def encodings_of_module(rng, m, nrand):
+    """the body-level re-encodings of a fixed module (for the directed module)"""
+    from wasmgen import encode, Policy
+    out = [("min", encode(m)), ("max", encode(m, Policy("max")))]
+    for mode in LOCALS_VARIANTS:
+        out.append((f"min-locals-{mode}", encode(m, Policy("minimal", locals=mode))))
+    out.append(("max-locals-zero_all", encode(m, Policy("max", locals="zero_all"))))
+    out.append(("min-tblidx-two", encode(m, Policy("minimal", table_index_width=2))))
+    out.append(("min-tblidx-five", encode(m, Policy("minimal", table_index_width=5))))
+    for j in range(nrand):
+        out.append((f"rnd{j}", encode(m, Policy("random", rng, locals="random"))))
+    return out
+
+
 DROP_FIELDS = re.compile(r"^(ok len=\d+|DS .*|dbg=\d+)$")
+
+
+def canonical_locals(text):
+    """`2:i64,0:i32,1:i64` -> `3:i64`: the grouping of the locals vector is encoding, the sequence of locals is content"""
+    if text == "-":
+        return "-"
+    out = []
+    for g in text.split(","):
+        n, t = g.split(":")
+        n = int(n)
+        if n == 0:
+            continue
+        if out and out[-1][1] == t:
+            out[-1][0] += n
+        else:
+            out.append([n, t])
+    return ",".join("%d:%s" % (n, t) for n, t in out) or "-"
 
 
 def normalise_dump(dump):
@@ -181,6 +312,7 @@ def normalise_dump(dump):
         if p.startswith("F "):
             p = re.sub(r" start=\d+ hash=[0-9a-f]+", "", p)
             p = re.sub(r" code=\S+", "", p)
+            p = re.sub(r" locals=(\S+)", lambda mm: " locals=" + canonical_locals(mm.group(1)), p)
         elif p.startswith("G "):          # G <vt> <mut> <init expr bytes>: immediates may be padded
             p = " ".join(p.split(" ")[:3])
         elif p.startswith("E "):          # E <table> <offset expr bytes> <funcs>
@@ -236,6 +368,7 @@ def run_modules(chk, d, repo, broken):
     err_hist = collections.Counter()
     cases = []          # (group, tag, bytes, debug)
     groups = {}
+    mods = {}
     for profile in PROFILES:
         for index in range(nmod):
             try:
@@ -245,12 +378,36 @@ def run_modules(chk, d, repo, broken):
                 continue
             g = f"{chk.seed}:{profile}:{index}"
             groups[g] = encs
+            mods[g] = m
             for tag, b in encs:
                 cases.append((g, tag, b, False))
                 enc_hist[tag.split("@")[0].split(":")[0].rstrip("0123456789")] += 1
             # under -g the name section is parsed as well
             for tag, b in encs[:2] + encs[-1:]:
                 cases.append((g, tag + "+g", b, True))
+    # the directed module: every kind of immediate, locals of four types
+    dm = directed_immediates()
+    groups["directed:immediates"] = encodings_of_module(chk.rng, dm, 4 if tier == "quick" else 24)
+    mods["directed:immediates"] = dm
+    for tag, b in groups["directed:immediates"]:
+        cases.append(("directed:immediates", tag, b, False))
+        enc_hist[tag.split("@")[0].split(":")[0].rstrip("0123456789")] += 1
+    # every re-encoding is a valid module for the independent oracle (else the generator of encodings is wrong: tool failure)
+    from wasmgen import v8
+    nval = 0
+    for g, encs in groups.items():
+        for tag, b in encs:
+            if tag.startswith("custom@"):
+                continue
+            err = v8.compile_error(b)
+            nval += 1
+            if err is not None:
+                raise RuntimeError(f"wasmgen produced an encoding V8 rejects: {g} {tag}: {err} hex={b.hex()[:400]}")
+    chk.coverage["v8_validated_encodings"] = nval
+    imm_hist = collections.Counter()
+    for g, m in mods.items():
+        imm_hist.update(immediate_histogram(m))
+    chk.coverage["immediate_kinds_in_modules"] = dict(imm_hist)
     # malformed stream: mutations and every truncation of the smallest encodings
     mal = []
     for g, encs in groups.items():
@@ -337,16 +494,19 @@ def run_modules(chk, d, repo, broken):
                               {"module": g, "encodings": [ref[0], tag], "hex": [ref[2].hex(), b.hex()], "mode": "reader-pair",
                                "replay_cmd": "python3 tools/check.py C08 --replay <this file>"}, True)
         # metamorphic run of the real translator
-        pick = [encs[0], encs[1]] + [e for e in encs if e[0].startswith("min-")] + encs[5:18:4] + encs[18:]
+        fixed = [e for e in encs if e[0] in ("min", "max") or e[0].startswith("min-") or e[0].startswith("max-")]
+        customs = [e for e in encs if e[0].startswith("custom@")]
+        rnds = [e for e in encs if e[0].startswith("rnd")]
+        pick = fixed + customs[::4] + rnds
         if tier == "quick":
-            pick = pick[:2] + pick[2:5] + pick[-2:]
+            pick = fixed + rnds[-2:]
         refdefs = None
         for tag, b in pick:
             rc, defs = translate(w2c2, d, f"{g.replace(':', '_')}_{re.sub(r'[^A-Za-z0-9]+', '_', tag)}", b)
             ntrans += 1
             chk.count_case(("translate", b), True, None)
             if rc != 0:
-                chk.violation(f"translator-rejects-{tag.split('@')[0].split(':')[0]}",
+                chk.violation(f"translator-rejects-{tag.split('@')[0].split(':')[0].rstrip('0123456789')}",
                               f"w2c2 exits {rc} on a valid encoding ({tag}) of module {g}",
                               {"module": g, "encoding": tag, "hex": b.hex(), "mode": "translate",
                                "replay_cmd": "python3 tools/check.py C08 --replay <this file>"}, True)
@@ -357,14 +517,111 @@ def run_modules(chk, d, repo, broken):
                 a = collections.Counter(refdefs[1])
                 c = collections.Counter(defs)
                 diff = list((a - c).elements())[:2] + list((c - a).elements())[:2]
-                chk.violation(f"emitted-definitions-differ-{tag.split('@')[0].split(':')[0]}",
+                chk.violation(f"emitted-definitions-differ-{tag.split('@')[0].split(':')[0].rstrip('0123456789')}",
                               f"w2c2 emits different C definitions for two spec-equivalent encodings ({refdefs[0]} / {tag}) of module {g}",
                               {"module": g, "encodings": [refdefs[0], tag], "hex": [refdefs[2].hex(), b.hex()],
                                "first_differences": [x[:400] for x in diff], "mode": "translate-pair",
                                "replay_cmd": "python3 tools/check.py C08 --replay <this file>"}, True)
     chk.coverage["translator_runs"] = ntrans
     chk.coverage["modules"] = len(groups)
+    run_behaviour(chk, d, repo, w2c2, groups, mods, tier)
     return len(allcases)
+
+
+def immediate_histogram(m):
+    """how many instructions of each immediate kind (wasmgen OPS[..].imm) and how many locals groups the module has"""
+    import wasmgen.wasm_ast as A
+    h = collections.Counter()
+
+    def walk(seq):
+        for i in seq:
+            k = A.OPS[i.op].imm
+            if k != "none":
+                h[k + ("/prefixed" if A.OPS[i.op].prefix is not None else "")] += 1
+            elif A.OPS[i.op].prefix is not None:
+                h["prefixed-subopcode"] += 1
+            if i.body is not None:
+                walk(i.body)
+            if i.else_body is not None:
+                walk(i.else_body)
+    for f in m.funcs:
+        walk(f.body)
+        h["locals-groups"] += len(f.locals)
+        h["locals-zero-groups-in-module"] += sum(1 for n, _ in f.locals if n == 0)
+    return h
+
+
+BEHAVIOUR_VARIANTS = ("max-locals-zero_all", "min-locals-zero_lead", "min-tblidx-five", "rnd")
+
+
+def run_behaviour(chk, d, repo, w2c2, groups, mods, tier):
+    """Run-time results of re-encoded modules: the module runs in V8 (minimal encoding), the re-encodings are translated by
+    the real w2c2, compiled and run on the same call script."""
+    import e2e
+    from wasmgen import v8, arg_vectors
+    work = os.path.join(d, "behaviour")
+    os.makedirs(work, exist_ok=True)
+    names = list(groups)
+    per_profile = 1 if tier == "quick" else 4
+    chosen = [g for g in names if g.startswith("directed")]
+    seen = collections.Counter()
+    for g in names:
+        parts = g.split(":")
+        if len(parts) == 3 and seen[parts[1]] < per_profile and parts[1] != "names":
+            seen[parts[1]] += 1
+            chosen.append(g)
+    nrun = 0
+    for g in chosen:
+        m = mods[g]
+        encs = dict(groups[g])
+        arng = random.Random("c08:%s:args" % g)
+        calls = list(m.meta.get("calls") or [])
+        for nm, f in m.meta["exports"]:
+            calls += [(nm, v) for v in arg_vectors(arng, m, f, 3 if tier == "quick" else 6)]
+        calls = calls[:40]
+        imp = m.meta["imports_spec"]
+        base = None           # real run of the minimal encoding, computed when a re-encoding disagrees with V8
+        vr = v8.run(encs["min"], calls, imp, mem_hash=True, module=m)
+        for k, r in enumerate(vr.results):
+            if r[0] == "trap" and r[1] in e2e.V8_ONLY_TRAPS:     # outside the property (w2c2 does no bounds checks)
+                calls = calls[:k]
+                vr = v8.run(encs["min"], calls, imp, mem_hash=True, module=m)
+                break
+        if vr.instantiate[0] != "ok":
+            continue
+        tags = [t for t in encs if any(t.startswith(v) for v in BEHAVIOUR_VARIANTS)]
+        if not g.startswith("directed"):
+            tags = tags[:2] if tier == "quick" else tags[:3] + tags[-2:]
+        for tag in tags:
+            b = encs[tag]
+            name = "b" + re.sub(r"[^A-Za-z0-9]", "", g + tag)[-40:]
+            tr = e2e.translate(w2c2, work, name, b, ("-t", "1"))
+            nrun += 1
+            chk.count_case(("behaviour", b), True, None)
+            if not tr.ok:
+                chk.violation(f"translator-rejects-{tag.rstrip('0123456789')}",
+                              f"w2c2 fails on a valid encoding ({tag}) of module {g}: {tr.stderr[-200:]}",
+                              {"module": g, "encoding": tag, "hex": b.hex(), "mode": "translate",
+                               "replay_cmd": "python3 tools/check.py C08 --replay <this file>"}, True)
+                continue
+            rr = e2e.run_real(repo, work, w2c2, m, calls, imp, translated=tr)
+            diffs, info = e2e.compare(rr, vr)
+            if diffs:
+                # a disagreement that the minimal encoding shows as well is not about the encoding (other properties)
+                if base is None:
+                    trb = e2e.translate(w2c2, work, name + "base", encs["min"], ("-t", "1"))
+                    base = e2e.compare(e2e.run_real(repo, work, w2c2, m, calls, imp, translated=trb), vr)[0] if trb.ok else [{"kind": "w2c2_error"}]
+                if json.dumps(base, default=str, sort_keys=True) == json.dumps(diffs, default=str, sort_keys=True):
+                    chk.notes.append(f"behaviour: {g} differs from V8 in every encoding alike ({diffs[0].get('kind')}): not an encoding matter")
+                    continue
+                chk.violation(f"behaviour-differs-{tag.rstrip('0123456789')}",
+                              f"the compiled translation of encoding {tag} of module {g} does not behave like the module (V8): "
+                              + json.dumps(diffs[0], default=str)[:300],
+                              {"module": g, "encoding": tag, "hex": b.hex(), "reference_hex": encs["min"].hex(),
+                               "calls": [[n.hex(), [[t, v] for t, v in a]] for n, a in calls], "imports_spec": imp,
+                               "diffs": json.loads(json.dumps(diffs[:3], default=str)), "mode": "behaviour",
+                               "replay_cmd": "python3 tools/check.py C08 --replay <this file>"}, True)
+    chk.coverage["behaviour_runs"] = nrun
 
 
 def run(tier):
@@ -374,7 +631,8 @@ def run(tier):
         "Model.Reader is hand-written from reader.c; tied by the reader-dump correspondence (exact dump / error code) on every run",
         "SHA-1 is an uninterpreted function of the hashed byte range in the model (computed by the driver for the dump)",
         "calloc/realloc succeed (a failed allocation is only ever reported as `allocation failed`)",
-        "wasmgen encoder/generator (tools/wasmgen, self-tested against V8) defines which byte strings are valid encodings in the correspondence",
+        "wasmgen encoder/generator (tools/wasmgen, self-tested against V8) defines which byte strings are valid encodings in the correspondence; every re-encoding used here is additionally validated by V8",
+        "tools/extract/gen_instr.py (which primitives each immediate reader calls, which reader each opcode case of c.c uses, the loop shape of wasmLocalsDeclarationsGetType; unknown shapes stop with EXTRACT-FAIL); Model.Instr is tied to the real readers by the `imm` correspondence, the opcode -> reader table by the metamorphic runs of the real w2c2",
     ]
     chk.assumptions = ["function bodies: encoding independence of the emitted C is checked by running the real translator on encoding pairs "
                        "(metamorphic), the body-level theorem `emit_encoding_independent` belongs to the emitter model (C03)"]
@@ -389,13 +647,20 @@ def run(tier):
                             "with 9 boundary payload fillings + random, random valid encodings with random padding and tails; compared: value "
                             "bits, bytes consumed, bytes left, UBSan verdict. reader-dump: a case is (file image, -g flag); generated modules "
                             "(8 wasmgen profiles) x {minimal, maximal, random LEB widths, empty sections emitted, data flag 0/2, a custom section "
-                            "at each of the 13 boundaries with names name/.debug_x/empty/..., random customs}, mutated and truncated images, "
-                            "all /repo/tests/gen/*.wasm; compared: full struct dump or error code. Non-trivial = distinct case.")
+                            "at each of the 13 boundaries with names name/.debug_x/empty/..., random customs, locals vector regrouped "
+                            "(zero-count groups first/middle/last, split, merged), call_indirect table index in 2 and 5 bytes}, a directed "
+                            "module with every kind of immediate, mutated and truncated images, "
+                            "all /repo/tests/gen/*.wasm; compared: full struct dump or error code. imm: a case is (reader, bytes) — every "
+                            "immediate reader on minimal/maximal/2-byte/random paddings with tails, all truncations, random bytes; all "
+                            "one- and two-byte block types; (locals vector, index) with zero-count groups anywhere, totals up to 2^32-1. "
+                            "translate / behaviour: real w2c2 on every re-encoding (definitions compared), compiled output vs V8 on a "
+                            "subset. Non-trivial = distinct case.")
     with vlib.scratch("c08-") as d:
         repo = vlib.copy_repo(os.path.join(d, "repo"))
         if ok:
             try:
                 run_leb(chk, d, repo, broken)
+                run_imm(chk, d, repo, broken)
                 run_modules(chk, d, repo, broken)
             except RuntimeError as e:
                 broken.append({"kind": "harness", "msg": str(e)[-1500:]})
@@ -434,6 +699,22 @@ def replay(path):
             rc, _ = translate(w, d, "r", bytes.fromhex(r["hex"]))
             print("w2c2 exit status:", rc)
             return 0 if rc == 0 else 1
+        if mode == "behaviour":
+            import e2e
+            import e2e_common as ec
+            from wasmgen import v8
+            w = rd.build_w2c2(repo, d)
+            m, ref, imp, _ = ec.load_module({"hex": r["reference_hex"], "imports_spec": r.get("imports_spec") or {}})
+            calls = [(bytes.fromhex(n), [(t, int(v)) for t, v in a]) for n, a in r["calls"]]
+            vr = v8.run(ref, calls, imp, mem_hash=True, module=m)
+            tr = e2e.translate(w, d, "replay", bytes.fromhex(r["hex"]), ("-t", "1"))
+            if not tr.ok:
+                print("w2c2 fails on the re-encoded module:", tr.stderr[-300:])
+                return 1
+            rr = e2e.run_real(repo, d, w, m, calls, imp, translated=tr)
+            diffs, _ = e2e.compare(rr, vr)
+            print("re-encoded module behaves like the module in V8:", not diffs, json.dumps(diffs[:2], default=str)[:600])
+            return 1 if diffs else 0
         if mode == "translate-pair":
             w = rd.build_w2c2(repo, d)
             res = [translate(w, d, "r%d" % i, bytes.fromhex(h)) for i, h in enumerate(r["hex"])]
